@@ -16,7 +16,9 @@ RULE = ("random reduced-form indexed grammars (2-5 non-terminals, 1-2 indices, a
         "construction (proved: non-empty exactly when a derivable word is accepted), must be non-empty when a "
         "derivable word found by bounded enumeration is accepted and empty when the grammar's language is empty. Non-trivial: >=4 rules of >=3 kinds.")
 LEVEL = "proof"
-THEOREMS = ["Pfl.IG.isEmptyLib_iff",
+THEOREMS = ["Pfl.IG.isEmptyLib_isSome",
+            "Pfl.IG.isEmptyLib_total",
+            "Pfl.IG.isEmptyLib_iff",
             "Pfl.IG.isEmptyLibO_iff",
             "Pfl.IG.isEmptyLib_perm",
             "Pfl.IG.isEmptyLibO_perm",
